@@ -5,6 +5,7 @@ CONSTANTS
   MaxBlocks = 2
   Layouts = {"plain"}
   MaxUnwind = 0
+  Features = {}
   Defect = "none"
   MaxReload = 1
 CONSTRAINT Bounded
